@@ -31,7 +31,12 @@ pub mod hash_map {
 }
 
 pub mod model {
+    /// 8 buckets (7 entries) by default; `--cfg model16`: 16 buckets (14 entries), used by the
+    /// few shape-concrete harnesses that need a table of more than 7 entries.
+    #[cfg(not(model16))]
     pub const MAX_BUCKETS: usize = 8;
+    #[cfg(model16)]
+    pub const MAX_BUCKETS: usize = 16;
     /// The next fallible table allocation reports `AllocError` (fault injection).
     pub static mut FAIL_NEXT_ALLOC: bool = false;
     /// Ghost: number of table allocations performed so far.
@@ -137,21 +142,31 @@ pub mod raw {
         }
     }
 
+    #[cfg(not(model16))]
+    type Mask = u8;
+    #[cfg(model16)]
+    type Mask = u16;
+    #[cfg(not(model16))]
+    type Hashes = u64;
+    #[cfg(model16)]
+    type Hashes = u128;
+
     pub struct RawTable<T> {
-        /// null when `buckets == 0`; else 8 pointers, the first `buckets` valid
+        /// null when `buckets == 0`; else MAX_BUCKETS pointers, the first `buckets` valid
         slots: *mut [*mut T; MAX_BUCKETS],
         /// byte i: low 8 bits of the hash stored in slot i
-        hashes: u64,
-        /// 0, 4 or 8
+        hashes: Hashes,
+        /// 0, 4, 8 (or 16)
         buckets: u8,
         items: u8,
         growth_left: u8,
         /// bit i: slot i holds a value
-        full: u8,
+        full: Mask,
         /// bit i: slot i is a tombstone
-        deleted: u8,
+        deleted: Mask,
     }
 
+    #[cfg(not(model16))]
     macro_rules! each_slot {
         ($m:ident) => {
             $m!(0);
@@ -162,6 +177,27 @@ pub mod raw {
             $m!(5);
             $m!(6);
             $m!(7);
+        };
+    }
+    #[cfg(model16)]
+    macro_rules! each_slot {
+        ($m:ident) => {
+            $m!(0);
+            $m!(1);
+            $m!(2);
+            $m!(3);
+            $m!(4);
+            $m!(5);
+            $m!(6);
+            $m!(7);
+            $m!(8);
+            $m!(9);
+            $m!(10);
+            $m!(11);
+            $m!(12);
+            $m!(13);
+            $m!(14);
+            $m!(15);
         };
     }
 
@@ -272,7 +308,7 @@ pub mod raw {
         }
         /// Ghost view for fingerprints: all bookkeeping words of the table.
         pub fn model_words(&self) -> (*const u8, u64, u8, u8, u8, u8, u8) {
-            (self.slots as *const u8, self.hashes, self.buckets, self.items, self.growth_left, self.full, self.deleted)
+            (self.slots as *const u8, self.hashes as u64, self.buckets, self.items, self.growth_left, self.full as u8, self.deleted as u8)
         }
 
         #[inline]
@@ -281,7 +317,7 @@ pub mod raw {
         }
         #[inline]
         fn hash_at(&self, i: usize) -> u64 {
-            (self.hashes >> (8 * i)) & 0xff
+            ((self.hashes >> (8 * i)) & 0xff) as u64
         }
         #[inline]
         fn is_full(&self, i: usize) -> bool {
@@ -317,9 +353,9 @@ pub mod raw {
 
         fn erase_index(&mut self, i: usize) {
             let tomb = unsafe { NONDET_TOMBSTONES } && (next_choice() & 1) == 1;
-            self.full &= !(1u8 << i);
+            self.full &= !((1 as Mask) << i);
             if tomb {
-                self.deleted |= 1u8 << i;
+                self.deleted |= (1 as Mask) << i;
             } else {
                 self.growth_left += 1;
             }
@@ -339,7 +375,7 @@ pub mod raw {
         fn pick_slot(&self) -> usize {
             let lowest = (!self.full).trailing_zeros() as usize;
             if unsafe { NONDET_PLACEMENT } {
-                let i = (next_choice() & 7) as usize;
+                let i = (next_choice() as usize) & (MAX_BUCKETS - 1);
                 if feasible(i < self.buckets as usize && !self.is_full(i)) {
                     return i;
                 }
@@ -363,10 +399,10 @@ pub mod raw {
                 }
                 self.growth_left -= 1;
             }
-            self.deleted &= !(1u8 << i);
-            self.full |= 1u8 << i;
+            self.deleted &= !((1 as Mask) << i);
+            self.full |= (1 as Mask) << i;
             self.items += 1;
-            self.hashes = (self.hashes & !(0xffu64 << (8 * i))) | ((hash & 0xff) << (8 * i));
+            self.hashes = (self.hashes & !((0xff as Hashes) << (8 * i))) | (((hash & 0xff) as Hashes) << (8 * i));
             unsafe {
                 ptr::write(self.val(i), value);
                 Ok(Bucket { ptr: self.val(i) })
@@ -479,10 +515,10 @@ pub mod raw {
                         unsafe {
                             ptr::copy_nonoverlapping(self.val($i), new.val(j), 1);
                         }
-                        new.full |= 1u8 << j;
+                        new.full |= (1 as Mask) << j;
                         new.items += 1;
                         new.growth_left -= 1;
-                        new.hashes = (new.hashes & !(0xffu64 << (8 * j))) | (self.hash_at($i) << (8 * j));
+                        new.hashes = (new.hashes & !((0xff as Hashes) << (8 * j))) | ((self.hash_at($i) as Hashes) << (8 * j));
                     }
                 };
             }
